@@ -73,7 +73,7 @@ def events(logpath):
 
 
 def snapshot(root):
-    """{relative path: (kind, size, mode, mtime_ns, inode, sha)} for every entry under root"""
+    """{relative path: (kind, size, mode, mtime_ns, inode, sha, nlink)} for every entry under root"""
     snap = {}
     for dirpath, dirs, files in os.walk(root):
         dirs.sort()
@@ -84,9 +84,11 @@ def snapshot(root):
             if name:
                 with open(p, "rb") as f:
                     sha = hashlib.sha256(f.read()).hexdigest()[:16]
-                snap[rel] = ("f", st.st_size, st.st_mode, st.st_mtime_ns, st.st_ino, sha)
+                # the hard-link count is part of the state: a file of the input linked into an output can be
+                # rewritten through the output later on
+                snap[rel] = ("f", st.st_size, st.st_mode, st.st_mtime_ns, st.st_ino, sha, st.st_nlink)
             else:
-                snap[rel] = ("d", 0, st.st_mode, st.st_mtime_ns, st.st_ino, "")
+                snap[rel] = ("d", 0, st.st_mode, st.st_mtime_ns, st.st_ino, "", 0)
     return snap
 
 
@@ -110,7 +112,9 @@ def diff_snap(a, b):
         elif k not in a:
             probs.append(f"created: {k}")
         elif a[k] != b[k]:
-            what = "content" if a[k][5] != b[k][5] or a[k][1] != b[k][1] else "metadata (mode/mtime/inode)"
+            what = ("content" if a[k][5] != b[k][5] or a[k][1] != b[k][1] else
+                    "hard-link count (now reachable through another path)" if a[k][6] != b[k][6] else
+                    "metadata (mode/mtime/inode)")
             probs.append(f"changed {what}: {k}")
     return probs
 
